@@ -200,7 +200,11 @@ Cand(b) ==
    \cup { Tx("settle", v, v, v, 0, 0, 0) : v \in ex }
    \cup { Tx("dadd", a, a, v, x, 0, 0) : a \in U, v \in { w \in ex : b.val[w].acc }, x \in Amts }
    \cup UNION { IF b.val[v].dl[a] = 0 THEN {}
-                 ELSE { Tx("dsub", a, a, v, x, 0, 0) : x \in AmtsLo \cup {b.val[v].dl[a]} } \cup { Tx("dsettle", a, a, v, 0, 0, 0) } :
+                 \* amounts at the boundaries of the minimum delegation: nothing is left, the rest is below the minimum (the
+                 \* take-effect handler then forces a full withdrawal), exactly the minimum is left
+                 ELSE { Tx("dsub", a, a, v, x, 0, 0) :
+                          x \in { y \in AmtsLo \cup {b.val[v].dl[a], b.val[v].dl[a] - Unit \div 2, b.val[v].dl[a] - MinDeleg} : y > 0 } }
+                      \cup { Tx("dsettle", a, a, v, 0, 0, 0) } :
                    a \in U, v \in ex }
    \* failing and refused ones
    \cup { Tx("deposit", u0, u0, v, x, 0, 0) : v \in ex \cap {"g2"}, x \in AmtsLo }           \* not the operator: fails, pays all gas
